@@ -5,6 +5,7 @@ package main
 import (
 	"fmt"
 	"go/constant"
+	"go/token"
 	"go/types"
 	"math"
 	"math/big"
@@ -74,6 +75,7 @@ type Env struct {
 	pkg   *types.Package
 	fn    *ssa.Function // for locals by name (may be nil)
 	loop  *loopInfo     // for visited()
+	at    token.Pos     // program point (scoping of local names)
 	depth int
 }
 
@@ -341,7 +343,7 @@ func (e *Env) evalIdent(name string) SVal {
 		return SVal{T: e.x.ghostGet(e.cur, name), Ty: e.x.resolveType(gd.Type, e.pkg)}
 	}
 	if e.fn != nil {
-		if a := e.x.localByName(e.fn, name); a != nil {
+		if a := e.x.localByNameAt(e.fn, name, e.at); a != nil {
 			ad := e.x.resolveAddr(a)
 			return SVal{T: e.x.loadAddr(e.cur, ad), Ty: goT(ad.Typ)}
 		}
@@ -409,7 +411,7 @@ func (e *Env) evalSelect(n *ESelect) SVal {
 	// package-qualified name?
 	if id, ok := n.X.(*EIdent); ok {
 		if _, bound := e.vars[id.Name]; !bound && e.x.eng.ghostDecl(id.Name) == nil {
-			isLocal := e.fn != nil && e.x.localByName(e.fn, id.Name) != nil
+			isLocal := e.fn != nil && e.x.localByNameAt(e.fn, id.Name, e.at) != nil
 			if !isLocal {
 				if p := e.x.eng.pkgByName(id.Name, e.pkg); p != nil {
 					o := p.Scope().Lookup(n.Field)
@@ -498,7 +500,7 @@ func (e *Env) evalIndex(n *EIndex) SVal {
 		case *types.Slice:
 			i := e.coerce(e.eval(n.I), stInt)
 			hn, hs := e.x.sliceHeap(u.Elem())
-			idx := T(SBV(64), "(bvadd %s %s)", sliceOff(v.T).S, i.T.S)
+			idx := bvadd64(sliceOff(v.T), i.T)
 			return SVal{T: sel(sel(e.x.heapGet(e.cur, hn, hs), sliceRef(v.T)), idx), Ty: goT(u.Elem())}
 		case *types.Array:
 			iv := e.eval(n.I)
@@ -759,6 +761,57 @@ func (e *Env) evalCall(n *ECall) SVal {
 			cs = append(cs, eq(sel(x.heapGet(e.cur, hn, hs), pv.T), x.w.dtSelect(vv.T, i)))
 		}
 		return boolV(and(cs...))
+	case "zero":
+		ty := x.resolveType(n.Args[0].(*EStr).V, e.pkg)
+		return SVal{T: x.w.zeroOf(ty.Go), Ty: ty}
+	case "deref":
+		pv := arg(0)
+		pt, ok := pv.Ty.Go.Underlying().(*types.Pointer)
+		if !ok {
+			sfail("deref of non-pointer")
+		}
+		return SVal{T: x.loadAddr(e.cur, x.ptrAddr(pv.T, pt.Elem())), Ty: goT(pt.Elem())}
+	case "ext":
+		// ext("short callee name", args...): the uninterpreted function standing for a side-effect-free extern (kind fn)
+		name := n.Args[0].(*EStr).V
+		ex := x.eng.externFor(name)
+		if ex == nil || ex.Kind != "fn" {
+			sfail("ext(%q): not declared as extern of kind fn", name)
+		}
+		var as []Sort
+		var ss []string
+		for i := 1; i < len(n.Args); i++ {
+			v := e.concrete(arg(i))
+			as = append(as, v.T.Sort)
+			ss = append(ss, v.T.S)
+		}
+		rty := x.resolveType(n.Args[len(n.Args)-1].(*EStr).V, e.pkg) // last argument: result type name
+		as = as[:len(as)-1]
+		ss = ss[:len(ss)-1]
+		uf := fmt.Sprintf("uf_%s_%d", sanitize(name), 0)
+		for _, a := range as {
+			uf += "_" + sortID(a)
+		}
+		rs := x.w.sortOfS(rty)
+		x.w.declareUF(uf, as, rs)
+		return SVal{T: T(rs, "(%s %s)", uf, strings.Join(ss, " ")), Ty: rty}
+	case "local":
+		// local(name): current value of the named local variable (even if a parameter of the same name exists)
+		id, ok := n.Args[0].(*EIdent)
+		if !ok || e.fn == nil {
+			sfail("local() needs an identifier inside a function contract")
+		}
+		a := x.localByNameAt(e.fn, id.Name, e.at)
+		if a == nil {
+			sfail("no local named %s", id.Name)
+		}
+		ad := x.resolveAddr(a)
+		return SVal{T: x.loadAddr(e.cur, ad), Ty: goT(ad.Typ)}
+	case "same":
+		// same(a, b): identical values (for floats: bitwise the same value incl. NaN, unlike Go ==)
+		a, b := e.unify(arg(0), arg(1))
+		a, b = e.concrete(a), e.concrete(b)
+		return boolV(eq(a.T, b.T))
 	case "allocated":
 		v := arg(0)
 		r := v.T
